@@ -13,7 +13,7 @@ import tensors as T
 
 WEIGHTS = {'lincomb': 3, 'scale': 1, 'conj': 1.5, 'conj_blocks': 0.7, 'flip_signature': 0.7, 'flip_charges': 1, 'transpose': 3,
            'tensordot': 6, 'vdot': 1.5, 'trace': 2, 'add_leg': 1, 'remove_leg': 1, 'fuse': 2, 'unfuse': 2, 'copy': 0.3,
-           'consume_transpose': 0.7, 'norm2': 0.5, 'add3': 1}
+           'consume_transpose': 0.7, 'norm2': 0.5, 'add3': 1, 'diag': 1.2, 'broadcast': 1.2, 'apply_mask': 1.2}
 SYMLIST = ['U1', 'Z2', 'Z3', 'dense', 'Z2xU1', 'U1xU1', 'U1xU1xZ2']
 
 
